@@ -914,4 +914,68 @@ def P_C19 (attr : Toks) (item : Item) (view : View) : Bool :=
            | _ => true)
       | _ => true))
 
+/-! ## C15 — misuse yields its diagnostic; never a panic; the output always parses -/
+
+def sigMisuses (noDeps : Bool) (mode : Mode) (s : Sig) : List String :=
+  if noDeps then []
+  else
+    match s.inputs with
+    | [] => [msgNoReceiver]
+    | .recv .. :: _ => [msgSelfReceiver]
+    | .typed _ _ ty :: _ =>
+        match ty.stripRefs with
+        | .path true _ _ _ _ => [msgNoSelf]
+        | .path false true _ _ _ => [msgNoLeadingColon]
+        | _ =>
+          if s.depIsConcrete then
+            (match mode with | .mod_ => [msgConcreteInModule] | .impl => [msgConcreteInImpl] | _ => [])
+          else []
+
+/-- the documented misuses present in an invocation, each with its specific message;
+    `none`: the attribute arguments or the item are malformed at the syn level (no claim about
+    which message wins) -/
+def specMisuses (attr : Toks) (item : Item) : Option (List String) :=
+  match item with
+  | .fn f =>
+      match parseFnAttr attr with
+      | .error .syn => none
+      | .error (.diag m) => some [m]
+      | .ok a => some (sigMisuses a.opts.noDepsValue .fn f.sig)
+  | .mod_ m =>
+      if m.unsafe_ then some [msgNotAllowedHere]
+      else
+        match splitBody false m.oracle m.body.length m.body, parseFnAttr attr with
+        | .error _, _ => none
+        | _, .error .syn => none
+        | _, .error (.diag msg) => some [msg]
+        | .ok items, .ok a =>
+            some ((items.filterMap BodyItem.fn?).flatMap (fun f => sigMisuses a.opts.noDepsValue .mod_ f.sig))
+  | .impl m =>
+      match splitBody true m.oracle m.body.length m.body, parseImplAttr attr with
+      | .error _, _ => none
+      | _, .error .syn => none
+      | _, .error (.diag msg) => some [msg]
+      | .ok items, .ok _ => some ((items.filterMap BodyItem.fn?).flatMap (fun f => sigMisuses false .impl f.sig))
+  | .trait t =>
+      match parseTraitAttr attr with
+      | .error .syn => none
+      | .error (.diag msg) => some [msg]
+      | .ok a =>
+          some ((match a.implTrait, a.delegation with
+                 | none, some (.byTrait _) => [msgCustomWithoutTrait]
+                 | some _, none => [msgMissingDelegateBy]
+                 | some _, some .bySelf => [msgMissingDelegateBy]
+                 | _, _ => []) ++
+                (if t.members.any (fun m => match m with | .other _ => true | _ => false) then [msgUnsupportedTraitItem] else []))
+
+/-- `realDiag`: `some msgs` if the macro answered with compile errors; `realPanic`; `realParsed` -/
+def P_C15 (attr : Toks) (item : Item) (realPanic : Bool) (realDiag : Option (List String)) (realParsed : Bool) : Bool :=
+  !realPanic && realParsed &&
+  (match specMisuses attr item with
+   | some (m :: ms) =>
+       (match realDiag with
+        | some [msg] => (m :: ms).contains msg
+        | _ => false)
+   | _ => true)
+
 end Entrait
